@@ -405,75 +405,144 @@ package engine
 //@   ensures taken: (holds != not) ==> advancedBy0(es, e0) [C01]
 //@   ensures refused: (holds == not) ==> backtrackOf(es, nb, snap) [C01]
 
-//@ func (*SearchEngineState).MATCHWORDSTART [C03 C09 C10]
-//@   requires cellOk(es)
-//@   let e0 := *es
-//@   let d0 := rdData(es.reader)
-//@   modifies inferred
-//@   ensures step: cellOk(es) && frozen(es, e0) && rdData(es.reader) == d0
+//@ pred wordByte(c Int) := ('a' <= c && c <= 'z') || ('A' <= c && c <= 'Z') || ('0' <= c && c <= '9') || c == '_'
+//@ pred wordAt(d Str, o Int) := 0 <= o && o < len(d) && wordByte(sat(d, o))
+//@ pred atWordStart(d Str, o Int) := wordAt(d, o) && !wordAt(d, o - 1)
+//@ pred atWordEnd(d Str, o Int) := !wordAt(d, o) && wordAt(d, o - 1)
+//@ func IsLetter [C01 C09]
+//@   ensures one: len(value) == 1 ==> result == wordByte(sat(value, 0))
+//@   ensures none: len(value) == 0 ==> !result
 
-//@ func (*SearchEngineState).MATCHWORDEND [C03 C09 C10]
+//@ func (*SearchEngineState).MATCHWORDSTART [C03 C09 C10 C01]
 //@   requires cellOk(es)
 //@   let e0 := *es
 //@   let d0 := rdData(es.reader)
+//@   let nb := len(es.backtrack.store)
+//@   let snap := es.backtrack.store[nb - 1]
+//@   let holds := atWordStart(rdData(es.reader), es.currentFileOffset)
 //@   modifies inferred
 //@   ensures step: cellOk(es) && frozen(es, e0) && rdData(es.reader) == d0
+//@   ensures taken: (holds != not) ==> advancedBy0(es, e0) [C01]
+//@   ensures refused: (holds == not) ==> backtrackOf(es, nb, snap) [C01]
 
-//@ func (*SearchEngineState).MATCHWHOLEFILE [C03 C09 C10]
+//@ func (*SearchEngineState).MATCHWORDEND [C03 C09 C10 C01]
 //@   requires cellOk(es)
 //@   let e0 := *es
 //@   let d0 := rdData(es.reader)
+//@   let nb := len(es.backtrack.store)
+//@   let snap := es.backtrack.store[nb - 1]
+//@   let holds := atWordEnd(rdData(es.reader), es.currentFileOffset)
 //@   modifies inferred
 //@   ensures step: cellOk(es) && frozen(es, e0) && rdData(es.reader) == d0
+//@   ensures taken: (holds != not) ==> advancedBy0(es, e0) [C01]
+//@   ensures refused: (holds == not) ==> backtrackOf(es, nb, snap) [C01]
 
-//@ func (*SearchEngineState).MATCHANY [C03 C09 C10]
+//@ pred consumed(es *SearchEngineState, e0 SearchEngineState, d Str, n Int) := es.programCounter == e0.programCounter + 1 && es.currentFileOffset == e0.currentFileOffset + n && es.currentMatch == e0.currentMatch ++ ssub(d, e0.currentFileOffset, e0.currentFileOffset + n) && es.status == e0.status && len(es.backtrack.store) == len(e0.backtrack.store)
+//@ pred letterByte(c Int) := ('a' <= c && c <= 'z') || ('A' <= c && c <= 'Z')
+//@ func (*SearchEngineState).MATCHWHOLEFILE [C03 C09 C10 C01]
 //@   requires cellOk(es)
 //@   let e0 := *es
 //@   let d0 := rdData(es.reader)
+//@   let o := es.currentFileOffset
+//@   let nb := len(es.backtrack.store)
+//@   let snap := es.backtrack.store[nb - 1]
 //@   modifies inferred
 //@   ensures step: cellOk(es) && frozen(es, e0) && rdData(es.reader) == d0
+//@   ensures negated: not ==> (o == 0 ? backtrackOf(es, nb, snap) : advancedBy0(es, e0)) [C01]
+//@   ensures refused: !not && o != 0 ==> backtrackOf(es, nb, snap) [C01]
+//@   ensures whole: !not && o == 0 && len(d0) > 0 ==> consumed(es, e0, d0, len(d0)) [C01]
 
-//@ func (*SearchEngineState).MATCHLETTER [C03 C09 C10]
+//@ func (*SearchEngineState).MATCHANY [C03 C09 C10 C01]
 //@   requires cellOk(es)
 //@   let e0 := *es
 //@   let d0 := rdData(es.reader)
+//@   let o := es.currentFileOffset
+//@   let nb := len(es.backtrack.store)
+//@   let snap := es.backtrack.store[nb - 1]
+//@   let holds := !not && o < len(d0)
 //@   modifies inferred
 //@   ensures step: cellOk(es) && frozen(es, e0) && rdData(es.reader) == d0
+//@   ensures taken: holds ==> consumed(es, e0, d0, 1) [C01]
+//@   ensures refused: !holds ==> backtrackOf(es, nb, snap) [C01]
 
-//@ func (*SearchEngineState).MATCHWHOLELINE [C03 C09 C10]
+//@ func (*SearchEngineState).MATCHLETTER [C03 C09 C10 C01]
 //@   requires cellOk(es)
 //@   let e0 := *es
 //@   let d0 := rdData(es.reader)
+//@   let o := es.currentFileOffset
+//@   let nb := len(es.backtrack.store)
+//@   let snap := es.backtrack.store[nb - 1]
+//@   let holds := o < len(d0) && (letterByte(sat(d0, o)) != not)
 //@   modifies inferred
 //@   ensures step: cellOk(es) && frozen(es, e0) && rdData(es.reader) == d0
+//@   ensures taken: holds ==> consumed(es, e0, d0, 1) [C01]
+//@   ensures refused: !holds ==> backtrackOf(es, nb, snap) [C01]
+
+//@ func (*SearchEngineState).MATCHWHOLELINE [C03 C09 C10 C01]
+//@   requires cellOk(es)
+//@   let e0 := *es
+//@   let d0 := rdData(es.reader)
+//@   let o := es.currentFileOffset
+//@   let nb := len(es.backtrack.store)
+//@   let snap := es.backtrack.store[nb - 1]
+//@   let holds := atLineStart(d0, o) && o < len(d0)
+//@   modifies inferred
+//@   ensures step: cellOk(es) && frozen(es, e0) && rdData(es.reader) == d0
+//@   ensures negated: not ==> (holds ? backtrackOf(es, nb, snap) : advancedBy0(es, e0)) [C01]
+//@   ensures refused: !not && !holds ==> backtrackOf(es, nb, snap) [C01]
+//@   ensures line: !not && holds ==> es.currentFileOffset > o && consumed(es, e0, d0, es.currentFileOffset - o) && atLineEnd(d0, es.currentFileOffset) && (forall k :: { sat(d0, k) } o < k && k < es.currentFileOffset ==> !atLineEnd(d0, k)) [C01]
 //@   loop 1 invariant cellOk(es) && frozen(es, e0) && rdData(es.reader) == d0 && es.currentFileOffset < es.reader.size
 //@   loop 1 decreases es.reader.size - es.currentFileOffset [C10]
+//@   loop 1 invariant line: o <= es.currentFileOffset && (forall k :: { sat(d0, k) } o < k && k <= es.currentFileOffset ==> !atLineEnd(d0, k)) && es.currentMatch == e0.currentMatch ++ ssub(d0, o, es.currentFileOffset) && es.programCounter == e0.programCounter && es.status == e0.status && len(es.backtrack.store) == nb [C01]
 
-//@ func (*SearchEngineState).MATCHWHOLEWORD [C03 C09 C10]
+//@ func (*SearchEngineState).MATCHWHOLEWORD [C03 C09 C10 C01]
 //@   requires cellOk(es)
 //@   let e0 := *es
 //@   let d0 := rdData(es.reader)
+//@   let o := es.currentFileOffset
+//@   let nb := len(es.backtrack.store)
+//@   let snap := es.backtrack.store[nb - 1]
+//@   let holds := atWordStart(d0, o)
 //@   modifies inferred
 //@   ensures step: cellOk(es) && frozen(es, e0) && rdData(es.reader) == d0
+//@   ensures negated: not ==> (holds ? backtrackOf(es, nb, snap) : advancedBy0(es, e0)) [C01]
+//@   ensures refused: !not && !holds ==> backtrackOf(es, nb, snap) [C01]
+//@   ensures word: !not && holds ==> es.currentFileOffset > o && consumed(es, e0, d0, es.currentFileOffset - o) && (forall k :: { sat(d0, k) } o <= k && k < es.currentFileOffset ==> wordAt(d0, k)) && !wordAt(d0, es.currentFileOffset) [C01]
 //@   loop 1 invariant cellOk(es) && frozen(es, e0) && rdData(es.reader) == d0 && es.currentFileOffset < es.reader.size
 //@   loop 1 decreases es.reader.size - es.currentFileOffset [C10]
+//@   loop 1 invariant word: o <= es.currentFileOffset && wordAt(d0, es.currentFileOffset) && (forall k :: { sat(d0, k) } o <= k && k < es.currentFileOffset ==> wordAt(d0, k)) && es.currentMatch == e0.currentMatch ++ ssub(d0, o, es.currentFileOffset) && es.programCounter == e0.programCounter && es.status == e0.status && len(es.backtrack.store) == nb [C01]
 
-//@ func (*SearchEngineState).MATCHRANGE [C03 C09 C10]
+//@ pred rangeHit(d Str, o Int, from Str, to Str, not Bool, n Int) := n > 0 && o + n <= len(d) && ((from <= ssub(d, o, o + n) && ssub(d, o, o + n) <= to) != not)
+//@ func (*SearchEngineState).MATCHRANGE [C03 C09 C10 C01]
 //@   requires cellOk(es)
 //@   let e0 := *es
 //@   let d0 := rdData(es.reader)
+//@   let o := es.currentFileOffset
+//@   let nb := len(es.backtrack.store)
+//@   let snap := es.backtrack.store[nb - 1]
+//@   let some := exists n :: { ssub(d0, o, o + n) } len(from) <= n && n <= len(to) && rangeHit(d0, o, from, to, not, n)
 //@   modifies inferred
 //@   ensures step: cellOk(es) && frozen(es, e0) && rdData(es.reader) == d0
+//@   ensures taken: some ==> consumed(es, e0, d0, es.currentFileOffset - o) && len(from) <= es.currentFileOffset - o && es.currentFileOffset - o <= len(to) && rangeHit(d0, o, from, to, not, es.currentFileOffset - o) && (forall m :: { ssub(d0, o, o + m) } es.currentFileOffset - o < m && m <= len(to) ==> !rangeHit(d0, o, from, to, not, m)) [C01]
+//@   ensures refused: !some ==> backtrackOf(es, nb, snap) [C01]
 //@   loop 1 invariant cellOk(es) && frozen(es, e0) && rdData(es.reader) == d0 && i <= len(to)
+//@   loop 1 invariant longest: *es == e0 && (forall m :: { ssub(d0, o, o + m) } i < m && m <= len(to) ==> !rangeHit(d0, o, from, to, not, m)) [C01]
 //@   loop 1 decreases i + 1
 
-//@ func (*SearchEngineState).MATCHOPTIONS [C03 C09 C10]
+//@ func (*SearchEngineState).MATCHOPTIONS [C03 C09 C10 C01]
 //@   requires cellOk(es)
 //@   let e0 := *es
 //@   let d0 := rdData(es.reader)
+//@   let o := es.currentFileOffset
+//@   let nb := len(es.backtrack.store)
+//@   let snap := es.backtrack.store[nb - 1]
+//@   let holds := o < len(d0) && ((exists k :: { options[k] } 0 <= k && k < len(options) && options[k] == ssub(d0, o, o + 1)) != not)
 //@   modifies inferred
 //@   ensures step: cellOk(es) && frozen(es, e0) && rdData(es.reader) == d0
-//@   loop 1 invariant cellOk(es) && frozen(es, e0) && rdData(es.reader) == d0 && len(value) == 1
+//@   ensures taken: holds ==> consumed(es, e0, d0, 1) [C01]
+//@   ensures refused: !holds ==> backtrackOf(es, nb, snap) [C01]
+//@   loop 1 invariant cellOk(es) && frozen(es, e0) && rdData(es.reader) == d0 && len(value) == 1 && *es == e0 && value == ssub(d0, o, o + 1) && o < len(d0)
+//@   loop 1 invariant seen: forall k :: { options[k] } 0 <= k && k <= rangeindex ==> options[k] != value [C01]
 
 //@ func (*SearchEngineState).CHECKPOINT [C03 C09 C10 C02 C01]
 //@   requires cellOk(es)
@@ -770,6 +839,7 @@ package engine
 //@   loop 2 invariant window: (last != 0 ==> len(matches.store) <= last) && (last == 0 ==> len(matches.store) == max(0, matchNumber - skip)) && (!all ==> matchNumber <= skip + take) [C04]
 //@   loop 1 invariant first: last == 0 && len(matches.store) > 0 ==> matches.store[0].MatchNumber == skip + 1 [C04]
 //@   loop 2 invariant first: last == 0 && len(matches.store) > 0 ==> matches.store[0].MatchNumber == skip + 1 [C04]
+//@   loop 1 invariant program: len(insts) > 0 [C09]
 //@   loop 1 invariant scan: rdInv(reader) && rdData(reader) == d && 0 <= fileOffset && fileOffset < reader.size && startsAt(d, fileOffset, lineNumber, columnNumber) && matchNumber >= 0
 //@   loop 1 invariant queue: matches != nil && fresh(matches) && (matches.store.ref == 0 || fresh(matches.store))
 //@   loop 1 invariant each: forall k :: { matches.store[k] } 0 <= k && k < len(matches.store) ==> matchOk(matches.store[k], d, filename) && matches.store[k].Offset.End <= fileOffset && matches.store[k].MatchNumber <= matchNumber && matches.store[k].MatchNumber > skip
@@ -785,7 +855,8 @@ package engine
 //@   loop 2 invariant ordered: forall k :: { matches.store[k] } { matches.store[k + 1] } 0 <= k && k + 1 < len(matches.store) ==> matches.store[k].Offset.End <= matches.store[k + 1].Offset.Start
 //@   loop 2 invariant numbered: forall k :: { matches.store[k] } { matches.store[k + 1] } 0 <= k && k + 1 < len(matches.store) ==> matches.store[k + 1].MatchNumber == matches.store[k].MatchNumber + 1
 //@   loop 2 invariant newest: len(matches.store) > 0 ==> matches.store[len(matches.store) - 1].MatchNumber == matchNumber
-//@   loop 2 presumes pc: currentState.status == INPROCESS ==> 0 <= currentState.programCounter && currentState.programCounter < len(insts) && insts[currentState.programCounter] != nil
+//@   loop 2 invariant fetch: len(insts) > 0 && (currentState.status == INPROCESS ==> currentState.programCounter < len(insts)) [C09]
+//@   loop 2 presumes pc: currentState.status == INPROCESS ==> 0 <= currentState.programCounter && (currentState.programCounter < len(insts) ==> insts[currentState.programCounter] != nil)
 
 // ---- JSON rendering (C17) ----
 // What vore's code contributes: no panic; the value handed to encoding/json is the receiver
